@@ -12,6 +12,28 @@ Open Scope list_scope.
 Definition bs (l : list N) : string :=
   fold_right (fun n s => String (ascii_of_N n) s) EmptyString l.
 
+(* ---- compact notation for long texts (a cases file costs ~40 us per character of string literal) ----------
+   [rope [Lit "abc"; Fil 3 4000; Lit ": tx already in mempool"]] = "abc" ++ 4000 characters of the cycle
+   0123456789abcdef starting at digit 3 ++ ": tx already in mempool".  The harness encodes every text (sent and
+   observed alike) with one encoder, from the bytes of the Go string, and checks decode (encode s) = s in Go. *)
+Inductive seg := Lit (s : string) | Fil (off n : N).
+
+Definition hexd (i : N) : ascii :=
+  match (i mod 16)%N with
+  | 0 => "0" | 1 => "1" | 2 => "2" | 3 => "3" | 4 => "4" | 5 => "5" | 6 => "6" | 7 => "7"
+  | 8 => "8" | 9 => "9" | 10 => "a" | 11 => "b" | 12 => "c" | 13 => "d" | 14 => "e" | _ => "f"
+  end%N%char.
+
+Fixpoint fill (k : nat) (i : N) : string :=
+  match k with O => EmptyString | S k' => String (hexd i) (fill k' (i + 1)%N) end.
+
+Fixpoint rope (l : list seg) : string :=
+  match l with
+  | [] => EmptyString
+  | Lit s :: r => (s ++ rope r)%string
+  | Fil o n :: r => (fill (N.to_nat n) o ++ rope r)%string
+  end.
+
 (* scripted backend answers to a submit *)
 Inductive sresp := SOk | SDummy (L : N) | SErr (e : err) | SNoIDs | SPartial (k : nat).
 
@@ -46,7 +68,9 @@ Record ccase := {
   c_direct : obs; c_proxied : obs;
   c_dlog : list (list N); c_plog : list (list N);      (* submit calls that reached the double (blob sizes) *)
   c_dcalls : N * N; c_pcalls : N * N;                  (* GetIDs, Get calls that reached the double *)
-  c_indomain : bool                                    (* the Go oracle's domain flag for a scripted submit error *)
+  c_indomain : bool;                                   (* the Go oracle's domain flag for a scripted submit error *)
+  c_dtext : option string; c_ptext : option string     (* err.Error() of the error the node's helper was handed by the
+                                                          DA it called (directly / through the client), None = no error *)
 }.
 
 Definition status_eqb (a b : status) : bool :=
@@ -85,8 +109,15 @@ Definition robs_agrees (height : N) (gets : N) (m : robs) (o : obs) : bool :=
   | _ => false
   end.
 
+Definition otext_eqb (a b : option string) : bool :=
+  match a, b with
+  | None, None => true
+  | Some x, Some y => String.eqb x y
+  | _, _ => false
+  end.
+
 (* 1 = direct result, 2 = proxied result, 3 = direct backend log, 4 = proxied backend log, 5 = domain flag,
-   6 = GetIDs call counts *)
+   6 = GetIDs call counts, 7 = text of the error handed to the helper in-process, 8 = ... behind the proxy *)
 Definition check_case (T : table) (c : ccase) : list N :=
   match c_call c with
   | CSubmit sizes max r cancelled =>
@@ -96,12 +127,16 @@ Definition check_case (T : table) (c : ccase) : list N :=
       (if sobs_agrees (fst p) (c_proxied c) then [] else [2%N]) ++
       (if log_eqb (snd d) (c_dlog c) then [] else [3%N]) ++
       (if log_eqb (snd p) (c_plog c) then [] else [4%N]) ++
-      (match r with SErr e => if Bool.eqb (wfb T e) (c_indomain c) then [] else [5%N] | _ => [] end)
+      (match r with SErr e => if Bool.eqb (wfb T e) (c_indomain c) then [] else [5%N] | _ => [] end) ++
+      (if otext_eqb (answer_text (direct_answer T (interp_s T r) cancelled sizes)) (c_dtext c) then [] else [7%N]) ++
+      (if otext_eqb (answer_text (proxied_answer T max (interp_s T r) cancelled sizes)) (c_ptext c) then [] else [8%N])
   | CRetrieve height g ge cancelled =>
       let one := if cancelled then 0%N else 1%N in
       (if robs_agrees height (snd (c_dcalls c)) (direct_retrieve T g (interp_get ge) cancelled) (c_direct c) then [] else [1%N]) ++
       (if robs_agrees height (snd (c_pcalls c)) (proxied_retrieve T g (interp_get ge) cancelled) (c_proxied c) then [] else [2%N]) ++
-      (if (fst (c_dcalls c) =? one)%N && (fst (c_pcalls c) =? one)%N then [] else [6%N])
+      (if (fst (c_dcalls c) =? one)%N && (fst (c_pcalls c) =? one)%N then [] else [6%N]) ++
+      (if otext_eqb (direct_retrieve_text T g (interp_get ge) cancelled) (c_dtext c) then [] else [7%N]) ++
+      (if otext_eqb (proxied_retrieve_text T g (interp_get ge) cancelled) (c_ptext c) then [] else [8%N])
   end.
 
 Fixpoint mismatches_from (T : table) (i : N) (cs : list ccase) : list (N * list N) :=
